@@ -48,4 +48,9 @@ var Props = []*h.Prop{
 		Real:        realStore,
 		Stub:        stubStore,
 		Assumptions: []string{"range bounds are inclusive on both ends (first <= block time <= last), as the query engine treats them"}},
+	{ID: "C26", Run: c26,
+		Rule:        "one evaluation = one generated CSV file (permuted schemas with/without iface column, header or --schema, IPv4/IPv6 rows, padded cells, malformed rows of eight kinds, duplicate keys, time regressions, MaxRows) imported twice through a reader that returns drawn chunk sizes (1..4096 bytes per read) and queried back through the real engine; non-trivial = at least one importable row; distinct = distinct event-log hash",
+		Real:        append([]string{"csvimport.Import (schema, row parsing, flushing)", "encoding/csv, bufio"}, realStore...),
+		Stub:        stubStore,
+		Assumptions: []string{"short reads are injected only on the CSV input (a FIFO may do this), never on database files", "rows sharing interface, timestamp and key are expected to be summed, as the property states"}},
 }
